@@ -953,6 +953,7 @@ func checkStoresAreRead(c *Ctx, r *Rec, rule string, fds []*ast.FuncDecl) {
 			return true
 		})
 		var g *FG
+		reportedVar := map[*types.Var]bool{}
 		inspectNoLit(fd.Body, func(x ast.Node) bool {
 			as, ok := x.(*ast.AssignStmt)
 			if !ok || as.Tok != token.ASSIGN || len(as.Lhs) != len(as.Rhs) {
@@ -963,11 +964,17 @@ func checkStoresAreRead(c *Ctx, r *Rec, rule string, fds []*ast.FuncDecl) {
 				if !ok || excluded[v] || v.IsField() || v.Pkg() == nil || v.Parent() == v.Pkg().Scope() {
 					continue
 				}
-				if tv, ok := info.Types[as.Rhs[i]]; ok && (tv.Value != nil || tv.IsNil()) {
+				if tv, ok := info.Types[as.Rhs[i]]; ok && tv.IsNil() {
 					continue
+				}
+				if tv, ok := info.Types[as.Rhs[i]]; ok && tv.Value != nil && !isStringType(tv.Type) {
+					continue // numbers and truth values are set for tidiness; a text is an answer
 				}
 				if _, isLit := ast.Unparen(as.Rhs[i]).(*ast.CompositeLit); isLit {
 					continue
+				}
+				if _, isId := ast.Unparen(as.Rhs[i]).(*ast.Ident); isId && len(as.Lhs) > 1 {
+					continue // one half of an exchange (a, b = b, a): nothing is computed
 				}
 				stores++
 				if g == nil {
@@ -1005,6 +1012,10 @@ func checkStoresAreRead(c *Ctx, r *Rec, rule string, fds []*ast.FuncDecl) {
 				}
 				if found, _ := g.exists(pathQuery{from: pt, goalNode: reads, stop: writes}); !found {
 					bad++
+					if reportedVar[v] {
+						continue
+					}
+					reportedVar[v] = true
 					r.fail(rule, fmt.Sprintf("%s/%s", c.fdName(fd), v.Name()), c.pos(as.Pos()),
 						fmt.Sprintf("%s is assigned %s at %s and no path from there reads it: the value that was just computed is not the one that is used further down", v.Name(), exprStr(as.Rhs[i]), c.pos(as.Pos())))
 				}
@@ -1142,6 +1153,9 @@ func shapeLints(c *Ctx, r *Rec, fds []*ast.FuncDecl) {
 	checkCapacityIsNotSize(c, r, "G6-capacity-is-not-size", fds)
 	checkSwapKeepsDerived(c, r, "G7-exchange-keeps-derived", fds)
 	checkLoopCoversFirst(c, r, "G8-member-loops-cover-the-first", fds)
+	checkSiblingCallsAgree(c, r, "G9-sibling-calls-agree", fds)
+	checkFirstRoundAsked(c, r, "G10-first-round-asked", fds)
+	checkBreaksLeaveSomething(c, r, "G11-breaks-leave-something", fds)
 	r.count("functions read by the shape rules", len(fds))
 }
 
@@ -1329,4 +1343,306 @@ func sortedStrings(s []string) []string {
 		}
 	}
 	return out
+}
+
+// ---------------------------------------------------------------- two callers agree on the order of two arguments
+
+// checkSiblingCallsAgree: a private function with two integer parameters of the same type that is
+// handed the same two expressions by two callers, in opposite order: one of the two is wrong
+// (the compiler cannot tell).  Constants are not compared.
+func checkSiblingCallsAgree(c *Ctx, r *Rec, rule string, fds []*ast.FuncDecl) {
+	type site struct {
+		fd   *ast.FuncDecl
+		call *ast.CallExpr
+	}
+	sites := map[*types.Func][]site{}
+	var order []*types.Func
+	for _, fd := range fds {
+		info := c.infoFor(fd)
+		if info == nil || fd.Body == nil {
+			continue
+		}
+		ast.Inspect(fd.Body, func(x ast.Node) bool {
+			call, ok := x.(*ast.CallExpr)
+			if !ok {
+				return true
+			}
+			fn := calleeOf(info, call)
+			if fn == nil || fn.Exported() || fn.Pkg() == nil {
+				return true
+			}
+			fn = fn.Origin()
+			if c.declOf(fn) == nil {
+				return true
+			}
+			if len(sites[fn]) == 0 {
+				order = append(order, fn)
+			}
+			sites[fn] = append(sites[fn], site{fd, call})
+			return true
+		})
+	}
+	pairs, bad := 0, 0
+	for _, fn := range order {
+		sig := fn.Type().(*types.Signature)
+		if sig.Variadic() || len(sites[fn]) < 2 {
+			continue
+		}
+		for i := 0; i < sig.Params().Len(); i++ {
+			for j := i + 1; j < sig.Params().Len(); j++ {
+				pi, pj := sig.Params().At(i), sig.Params().At(j)
+				if !isIntegerType(pi.Type()) || !types.Identical(pi.Type(), pj.Type()) {
+					continue
+				}
+				pairs++
+				for a := 0; a < len(sites[fn]); a++ {
+					for b := a + 1; b < len(sites[fn]); b++ {
+						s, t := sites[fn][a], sites[fn][b]
+						if len(s.call.Args) <= j || len(t.call.Args) <= j || s.fd == t.fd {
+							continue
+						}
+						si, sj := exprStr(s.call.Args[i]), exprStr(s.call.Args[j])
+						ti, tj := exprStr(t.call.Args[i]), exprStr(t.call.Args[j])
+						if si == sj || si != tj || sj != ti {
+							continue
+						}
+						if c.infoFor(s.fd).Types[s.call.Args[i]].Value != nil || c.infoFor(s.fd).Types[s.call.Args[j]].Value != nil {
+							continue
+						}
+						// a function that calls itself with its two parameters exchanged does so on purpose
+						if c.funcOf(s.fd) != nil && (c.funcOf(s.fd).Origin() == fn || c.funcOf(t.fd).Origin() == fn) {
+							continue
+						}
+						bad++
+						r.fail(rule, fmt.Sprintf("%s.%s/arguments %d,%d", fn.Pkg().Name(), fn.Name(), i+1, j+1), c.pos(t.call.Pos()),
+							fmt.Sprintf("%s(%s %s, %s %s) is handed (%s, %s) at %s and (%s, %s) at %s: the same two values in opposite order, and both parameters have the type %s, so the compiler accepts either - one of the two callers has them the wrong way round", fn.Name(), pi.Name(), pi.Type(), pj.Name(), pj.Type(), si, sj, c.pos(s.call.Pos()), ti, tj, c.pos(t.call.Pos()), pi.Type()))
+					}
+				}
+			}
+		}
+	}
+	if bad == 0 {
+		r.ok(rule, "sibling-calls", "", fmt.Sprintf("%d pairs of same-typed integer parameters of private functions; no two callers hand the same two values in opposite order", pairs))
+	}
+}
+
+// ---------------------------------------------------------------- the first round of a loop over an iterator is asked for
+
+// checkFirstRoundAsked: `var it = S.GetIterator()` followed, in the same top-level statement
+// list, by an unconditional loop `for { ... it.GetNext() ...; if !it.HasNext() { break } }` whose
+// first round reaches the GetNext without passing any test, with nothing that touches the
+// iterator and no test of S (or of something computed from S) in front of the loop: for an empty
+// S the body runs once with a value that is not there.  (A loop exit that was moved behind the
+// statements it used to guard.)
+func checkFirstRoundAsked(c *Ctx, r *Rec, rule string, fds []*ast.FuncDecl) {
+	loops, bad := 0, 0
+	for _, fd := range fds {
+		info := c.infoFor(fd)
+		if info == nil || fd.Body == nil || hasGoto(fd.Body) {
+			continue
+		}
+		// the top-level statement lists: the function's own and those of its function literals
+		lists := [][]ast.Stmt{fd.Body.List}
+		for _, lit := range allFuncLits(fd.Body) {
+			lists = append(lists, lit.Body.List)
+		}
+		for _, list := range lists {
+			for i, s := range list {
+				lhs, rhs, ok := multiDefStmt(s)
+				if !ok || len(lhs) != 1 {
+					continue
+				}
+				src, mname, call, isCall := methodCall(ast.Unparen(rhs))
+				if !isCall || mname != "GetIterator" || len(call.Args) != 0 {
+					continue
+				}
+				it := identObj(info, lhs[0])
+				srcObj := identObj(info, src)
+				if it == nil || srcObj == nil {
+					continue
+				}
+				// what is computed from the source in this list
+				derived := map[types.Object]bool{srcObj: true}
+				for _, t := range list {
+					if l2, r2, ok := multiDefStmt(t); ok {
+						if mentionsAny(info, r2, derived) {
+							for _, l := range l2 {
+								if o := identObj(info, l); o != nil {
+									derived[o] = true
+								}
+							}
+						}
+					}
+				}
+				for j := i + 1; j < len(list); j++ {
+					t := list[j]
+					if mentionsObj(info, t, it) {
+						fs, isFor := t.(*ast.ForStmt)
+						if !isFor || fs.Cond != nil || fs.Init != nil || fs.Post != nil {
+							break
+						}
+						loops++
+						// a test of the source, or of something computed from it, in front of the loop?
+						guarded := false
+						for _, u := range list[:j] {
+							// a statement that looks at the source (or at something computed from it) and can
+							// leave the function
+							leaves := false
+							inspectNoLit(u, func(y ast.Node) bool {
+								switch z := y.(type) {
+								case *ast.ReturnStmt:
+									leaves = true
+								case *ast.CallExpr:
+									if noReturnCall(info, z) {
+										leaves = true
+									}
+								}
+								return true
+							})
+							switch cs := u.(type) {
+							case *ast.IfStmt:
+								if leaves && mentionsAny(info, cs.Cond, derived) {
+									guarded = true
+								}
+							case *ast.SwitchStmt, *ast.TypeSwitchStmt, *ast.ForStmt, *ast.RangeStmt, *ast.SelectStmt:
+								if leaves && mentionsAny(info, cs, derived) {
+									guarded = true
+								}
+							}
+						}
+						if guarded {
+							break
+						}
+						// the first GetNext of the first round: reached from the start of the body over
+						// unconditional edges only
+						var first *ast.CallExpr
+						g := newFG(info, fs.Body)
+						inspectNoLit(fs.Body, func(x ast.Node) bool {
+							if first == nil && methodCallOn(info, x, it, "GetNext") {
+								first = x.(*ast.CallExpr)
+							}
+							return true
+						})
+						if first == nil {
+							break
+						}
+						reached, _ := g.exists(pathQuery{from: point{g.entry(), 0},
+							edgeOK:   func(ast.Expr, bool) bool { return false },
+							goalNode: func(n ast.Node) bool { return containsNode(n, first) }})
+						// ... and nothing in front of it in that round asks the iterator
+						asked := false
+						if reached {
+							asked, _ = g.exists(pathQuery{from: point{g.entry(), 0},
+								edgeOK: func(ast.Expr, bool) bool { return false },
+								stop:   func(n ast.Node) bool { return containsNode(n, first) },
+								goalNode: func(n ast.Node) bool {
+									return !containsNode(n, first) && nodeHas(n, func(y ast.Node) bool { return methodCallOn(info, y, it, "HasNext") })
+								}})
+						}
+						if reached && !asked {
+							bad++
+							r.fail(rule, fmt.Sprintf("%s/first-round %s", c.fdName(fd), it.Name()), c.pos(first.Pos()),
+								fmt.Sprintf("the loop at %s takes %s.GetNext() at %s in its first round before anything has asked whether there is a value (the exit test comes behind it), and nothing in front of the loop looks at %s: for an empty %s the body runs once with a value that is not there", c.pos(fs.Pos()), it.Name(), c.pos(first.Pos()), srcObj.Name(), srcObj.Name()))
+						}
+						break
+					}
+				}
+			}
+		}
+	}
+	if bad == 0 {
+		r.ok(rule, "first-rounds", "", fmt.Sprintf("%d unconditional loops over a fresh iterator; none takes a value in its first round before asking", loops))
+	}
+}
+
+func mentionsAny(info *types.Info, n ast.Node, objs map[types.Object]bool) bool {
+	found := false
+	ast.Inspect(n, func(x ast.Node) bool {
+		if id, ok := x.(*ast.Ident); ok && objs[info.Uses[id]] {
+			found = true
+		}
+		return !found
+	})
+	return found
+}
+
+func allFuncLits(n ast.Node) []*ast.FuncLit {
+	var out []*ast.FuncLit
+	ast.Inspect(n, func(x ast.Node) bool {
+		if fl, ok := x.(*ast.FuncLit); ok {
+			out = append(out, fl)
+		}
+		return true
+	})
+	return out
+}
+
+// ---------------------------------------------------------------- a break that leaves nothing
+
+// checkBreaksLeaveSomething: an unlabelled `break` as the last statement of a case of a switch (or
+// select) that stands inside a loop.  It leaves the switch, which the end of the case does anyway:
+// the loop it was written to leave goes on.  (When an `if` is turned into a `switch`, the `break`
+// inside it changes its meaning.)
+func checkBreaksLeaveSomething(c *Ctx, r *Rec, rule string, fds []*ast.FuncDecl) {
+	breaks, bad := 0, 0
+	for _, fd := range fds {
+		info := c.infoFor(fd)
+		if info == nil || fd.Body == nil {
+			continue
+		}
+		var visit func(n ast.Node, inLoop bool)
+		visit = func(n ast.Node, inLoop bool) {
+			ast.Inspect(n, func(x ast.Node) bool {
+				switch s := x.(type) {
+				case *ast.FuncLit:
+					visit(s.Body, false)
+					return false
+				case *ast.ForStmt:
+					visit(s.Body, true)
+					return false
+				case *ast.RangeStmt:
+					visit(s.Body, true)
+					return false
+				case *ast.SwitchStmt, *ast.TypeSwitchStmt, *ast.SelectStmt:
+					var body *ast.BlockStmt
+					switch t := s.(type) {
+					case *ast.SwitchStmt:
+						body = t.Body
+					case *ast.TypeSwitchStmt:
+						body = t.Body
+					case *ast.SelectStmt:
+						body = t.Body
+					}
+					for _, cl := range body.List {
+						var stmts []ast.Stmt
+						switch cc := cl.(type) {
+						case *ast.CaseClause:
+							stmts = cc.Body
+						case *ast.CommClause:
+							stmts = cc.Body
+						}
+						if k := len(stmts); k > 0 {
+							if br, ok := stmts[k-1].(*ast.BranchStmt); ok && br.Tok == token.BREAK && br.Label == nil {
+								breaks++
+								if inLoop && k > 1 {
+									bad++
+									r.fail(rule, fmt.Sprintf("%s/break", c.fdName(fd)), c.pos(br.Pos()),
+										fmt.Sprintf("the `break` at %s is the last statement of a case of the switch at %s, which stands inside a loop: it leaves the switch, as the end of the case does anyway, and the loop goes on (a `break` that was written to leave the loop, in an `if` that became a `switch`)", c.pos(br.Pos()), c.pos(x.Pos())))
+								}
+							}
+						}
+						for _, st := range stmts {
+							visit(st, inLoop)
+						}
+					}
+					return false
+				}
+				return true
+			})
+		}
+		visit(fd.Body, false)
+	}
+	if bad == 0 {
+		r.ok(rule, "breaks", "", fmt.Sprintf("%d trailing breaks in cases; none of them stands in a loop it does not leave", breaks))
+	}
 }
